@@ -6,6 +6,7 @@
 //!   lfu <file>         run access streams on the real TinyLFU
 //!   ack <file>         run interleavings of done()/poll() on a real acknowledgement
 //!   stress <args>      free-running multi-threaded run with a watchdog
+//!   order <args>       free-running per-thread program-order check with a tiny command queue
 mod json;
 mod kernels;
 mod sched;
@@ -13,6 +14,7 @@ mod lfu;
 mod ack;
 mod stress;
 mod stress2;
+mod order;
 
 use std::env;
 
@@ -29,6 +31,7 @@ fn main() {
         "ack" => ack::run_file(&args[2]),
         "stress" => stress::run(&args[2..]),
         "stress2" => stress2::run(&args[2..]),
+        "order" => order::run(&args[2..]),
         other => {
             eprintln!("unknown sub-command {}", other);
             std::process::exit(2);
